@@ -79,6 +79,13 @@ impl Settings {
                 }
             }
         } else {
+            if !P::r#dyn().is_server() && frame.is_push_enabled() == Some(true) {
+                // A server cannot enable push: only the value 0 is valid for
+                // SETTINGS_ENABLE_PUSH sent by a server.
+                proto_err!(conn: "received SETTINGS_ENABLE_PUSH=1 from a server");
+                return Err(Error::library_go_away(Reason::PROTOCOL_ERROR));
+            }
+
             // We always ACK before reading more frames, so `remote` should
             // always be none!
             assert!(self.remote.is_none());
